@@ -25,13 +25,15 @@ RAW = None
 
 
 def _want(qual, node):
-    return '.' in qual and node.name not in ('__init__', '__del__', '__repr__')
+    return '.' in qual and node.name not in ('__init__', '__repr__')
 
 
 _TR = transform.Asyncify(_want)
 FL = loader.load('aiuti/filelock.py', 'aiuti_filelock_modeT', extra_passes=[_TR], inject={'_vt': vt})
 try:
-    FL.BaseFileLock.__del__ = lambda self: None   # GC-time release is outside these scenarios
+    # garbage collection of a lock object is an explicit scenario step (`_vf_del`), never something the interpreter does mid-path
+    FL.BaseFileLock._vf_del = FL.BaseFileLock.__del__
+    FL.BaseFileLock.__del__ = lambda self: None
 except Exception:  # noqa
     pass
 LockClass = getattr(FL, 'UnixFileLock', None) or FL.FileLock
@@ -57,18 +59,20 @@ class Env:
 
 
 # =================================================================================== C02
-STYLES = ('acquire', 'with', 'acquire_ctx', 'nonblocking', 'timed', 'nested')
+STYLES = ('acquire', 'with', 'acquire_ctx', 'nonblocking', 'timed', 'nested', 'drop')
 
 
-def scen_c02(styles, ctor_timeout, reentrant, nobj, csdur, prio_idx, p1, q1, p2=0, q2=0, rounds=1, t_arg=1, objmap=None):
+def scen_c02(styles, ctor_timeout, reentrant, nobj, csdur, prio_idx, p1, q1, p2=0, q2=0, rounds=1, t_arg=1, objmap=None, fault_unlock=-1, delays=None):
     """len(styles) = threads * rounds (thread-major)."""
     global LAST_INFO, RAW
     nthreads = len(styles) // rounds
     prio = vt.permutation(nthreads, pick(prio_idx, [1, 1, 2, 6, 24][nthreads]))
     env = Env(prio=prio, preempts=[(p1, q1), (p2, q2)], trace=not tracing())
     W = env.w
-    nobj = pick(nobj - 1, 2) + 1
+    nobj = pick(nobj - 1, 3) + 1
     locks = [env.lock(ctor_timeout, reentrant) for _ in range(nobj)]
+    if fault_unlock >= 0:
+        env.k.faults[('unlock', fault_unlock)] = 5     # the OS refuses one unlock call (EIO)
     st = {'occ': 0, 'overlap': False, 'entered': 0, 'inside': {}, 'errors': []}
 
     async def cs(i):
@@ -86,6 +90,8 @@ def scen_c02(styles, ctor_timeout, reentrant, nobj, csdur, prio_idx, p1, q1, p2=
 
     async def worker(i):
         l = locks[objmap[i] if objmap else i % nobj]
+        if delays and delays[i] > 0:
+            await vt.Tok('sleep', W.now + delays[i])
         for r in range(rounds):
             mode = STYLES[pick(styles[i * rounds + r], len(STYLES))]
             try:
@@ -102,6 +108,11 @@ def scen_c02(styles, ctor_timeout, reentrant, nobj, csdur, prio_idx, p1, q1, p2=
                             await cs(i)
                     except TimeoutError:
                         pass
+                elif mode == 'drop':
+                    # the holder object is garbage-collected while holding (its __del__ runs) instead of being released
+                    if await vt.call(l.acquire):
+                        await cs(i)
+                        await vt.call(l._vf_del)
                 elif mode == 'nested':
                     # the critical section spans the outer block; a nested re-entry happens in the middle of it
                     async with vt.cm(l):
@@ -630,6 +641,15 @@ def cells(prop, tier):
                             pre=['0 <= s2 <= 1 and 1 <= csdur <= 2 and 0 <= p1 <= 170 and 0 <= q1 <= 1'],
                             body='H.scen_c02([5, 5, s2], -1, True, 2, csdur, %d, p1, q1, 0, 0, 1, 1, (0, 0, 1))' % pr,
                             tier='thorough', timeout=3000, family='c02', weight=4))
+        # one OS unlock call fails while a thread goes through two rounds on its object and another object contends
+        out.append(Cell(name='c02_unlock_fault', sig='styles: List[int], fault: int, prio_idx: int, p1: int',
+                        pre=['len(styles) == 4 and all(0 <= s <= 1 for s in styles) and 0 <= fault <= 1 and 0 <= prio_idx <= 1 and 0 <= p1 <= 140'],
+                        body='H.scen_c02(styles, -1, False, 2, 1, prio_idx, p1, 0, 0, 0, 2, 1, (0, 1), fault)', tier=q, timeout=900, family='c02', weight=4))
+        # a holder object is dropped (collected) while holding; a second contender is already blocked, a third arrives later
+        for pr in (0, 3):
+            out.append(Cell(name='c02_3t_dropped_holder_prio%d' % pr, sig='s1: int, s2: int, p1: int, q1: int',
+                            pre=['0 <= s1 <= 1 and 0 <= s2 <= 1 and 0 <= p1 <= 120 and 0 <= q1 <= 1'],
+                            body='H.scen_c02([6, s1, s2], -1, False, 3, 2, %d, p1, q1, 0, 0, 1, 1, (0, 1, 2), -1, (0, 0, 3))' % pr, tier=q, timeout=900, family='c02', weight=4))
         out.append(Cell(name='c02_3t_nested_prio0_quick', sig='p1: int, q1: int', pre=['0 <= p1 <= 170 and 0 <= q1 <= 1'],
                         body='H.scen_c02([5, 5, 0], -1, True, 2, 1, 0, p1, q1, 0, 0, 1, 1, (0, 0, 1))', tier=q, timeout=900, family='c02', weight=4))
         if tier != 'thorough':
